@@ -225,8 +225,10 @@ def unordered_gap_signature(run):
     returns an I/O error while newer inputs are removed; the failure shows only after restart"""
     f = run.get("failed") or {}
     ev = run.get("events") or []
-    if run.get("kind") != "error" or f.get("class") != "remove" or f.get("dir") != "u":
+    if run.get("kind") != "error" or f.get("class") not in ("remove", "rename") or f.get("dir") != "u":
         return False
+    if f["class"] == "rename" and f.get("name2") != f["name"] + ".init":
+        return False    # only the parking of an input that a reader still holds
     k = run.get("at", -1)
     if not any(e["class"] == "logremove" for e in ev[:k]):
         return False
@@ -373,7 +375,9 @@ def main(ck):
             break
         sig = sig or sig2
         if ci.get("died") and not ci.get("fail"):
-            if sig:
+            # a process death on files written under another max-rows-per-segment (segments longer than the limit make the
+            # streaming compactor and the merge column writer panic) is an observation as long as the crash oracle holds
+            if sig or ci.get("illformed"):
                 col_died_known += 1      # observation (see NOTES): the process dies, the files are untouched after restart
             else:
                 ck.broken.append("compaction / merge died (%s) in column case %d op %s [%s]; the model (ColModel.compact_col) "
